@@ -17,12 +17,71 @@ def run(tier, seed, model):
     camp.rule = ("random histories of 1..60 pointer operations (move, down, up, click, drag incl. zero-length, axis-aligned, "
                  "diagonal, negative-direction, steps 1,2,3,7,50,1000; ~3% out-of-range buttons/steps) on the real "
                  "VNCDoToolClient under a virtual clock; PointerEvent bytes parsed independently and compared with the "
-                 "held-set specification and with the extracted Coq model; non-trivial = at least one in-domain operation")
+                 "held-set specification and with the extracted Coq model; non-trivial = at least one in-domain operation; "
+                 "then histories of up to 12 operations with server events between them (desktop-size changes down to 1x1, "
+                 "rectangles, cursor shapes, bells), 40% of them at DEBUG log level, judged by the specification")
     clientops.run_campaign(camp, model, rng, n,
                            ["mouseMove", "mouseDown", "mouseUp", "mousePress", "mouseDrag", "mouseDrag"], 60, "C05",
                            force_caps_choices=(False,))
+    if not camp.oracle_failures:
+        interleaved(camp, rng, 150 if tier == "quick" else 3000)
     return camp
 
 
+def interleaved(camp, rng, n):
+    """the same histories with the server busy in between (desktop grows and shrinks below the pointer, rectangles,
+    cursor shapes, bells) and at default / DEBUG log level: none of that may move the pointer or touch the buttons"""
+    from c04 import debug_logging
+    import contextlib
+    for i in range(n):
+        ops = clientops.gen_history(rng, ["mouseMove", "mouseDown", "mouseUp", "mousePress", "mouseDrag", "mouseDrag"], 12)
+        ops = [o for o in ops if o[0] != "mouseDrag" or max(abs(o[1]), abs(o[2])) < 70000]
+        mixed = []
+        for o in ops:
+            mixed.append(o)
+            r = rng.random()
+            if r < 0.25:
+                mixed.append(("srvSize", rng.choice([1, 2, 8, 30, 200]), rng.choice([1, 3, 8, 20, 100])))
+            elif r < 0.35:
+                mixed.append(("srvRect", rng.randrange(0, 6), rng.randrange(0, 6), rng.randrange(1, 5), rng.randrange(1, 5)))
+            elif r < 0.45:
+                mixed.append(("srvCursor", rng.randrange(0, 3), rng.randrange(0, 3), rng.randrange(1, 4), rng.randrange(1, 4)))
+            elif r < 0.5:
+                mixed.append(("srvBell",))
+        dbg = rng.random() < 0.4
+        hs = rng.random() < 0.7
+        with (debug_logging() if dbg else contextlib.nullcontext()):
+            real, final = clientops.run_real(8, 8, False, hs, mixed)
+        spec = clientops.Spec(8, 8, hs, False)
+        camp.evaluations += 1
+        camp.count("interleaved:debug-log" if dbg else "interleaved:default-log")
+        nontriv = False
+        for oi, (op, got) in enumerate(zip(mixed, real)):
+            exp = spec.expected(op)
+            if exp is None:
+                break
+            if op[0].startswith("srv"):
+                camp.count("interleaved:" + op[0])
+                if got is None:           # a server event the client refuses is not this property's business
+                    break
+                continue
+            nontriv = True
+            parsed = clientops.parse_c2s(got) if got is not None else None
+            if parsed != exp:
+                camp.oracle_failures.append({
+                    "kind": "oracle", "property": "C05",
+                    "case": {"width": 8, "height": 8, "force_caps": False, "has_screen": hs, "ops": [list(o) for o in mixed[:oi + 1]],
+                             "debug_logging": dbg},
+                    "what": f"{'at DEBUG log level, ' if dbg else ''}op #{oi} {op!r} after {[o[0] for o in mixed[:oi]][-4:]}: expected messages "
+                            f"{exp!r}, client wrote {'an exception' if got is None else parsed if parsed is not None else got.hex()}"})
+                return
+        if nontriv:
+            camp.nontrivial.add(("mixed", i, repr(mixed[:6])))
+
+
 def replay(payload):
+    if payload["case"].get("debug_logging"):
+        from c04 import debug_logging
+        with debug_logging():
+            return clientops.replay_case(payload["case"], "C05")
     return clientops.replay_case(payload["case"], "C05")
